@@ -46,6 +46,7 @@ class SearchCtx:
         self.msgs = []
         self.xs = []          # brentq points [(x_ret, x_last)]
         self.init_calls = []  # (field idx, hk, specifier) of every GHE construction
+        self.flow_records = []
         self.upper, self.lower = upper, lower
         self.min_h = self.num('min_h', 20, 300) if min_h is None else min_h
         self.max_h = self.num('max_h', 21, 400) if max_h is None else max_h
@@ -181,6 +182,8 @@ def install():
             self.sim_h = None           # height tag of the most recent simulate()
             self.sim_field = None
             CTX.init_calls.append((CTX.field_idx(g_function.bore_locations), CTX.hkey(borehole.H), field_specifier))
+            # flow handed to the g-function computation of this candidate vs the flow of the exchanger built on it
+            CTX.flow_records.append((getattr(g_function, 'm_flow_borehole', None), self.m_flow_borehole, self.nbh, v_flow_system))
 
         def simulate(self, method):
             h = self.bhe.b.H
